@@ -201,11 +201,12 @@ def strategy():
                 "shape_partial": draw(st.lists(st.sampled_from([0, 0, 10, 60]), min_size=1, max_size=3)),
                 "lat": draw(st.lists(st.sampled_from([0.0005, 0.002, 0.01]), min_size=1, max_size=3)),
                 "chunks": draw(st.lists(st.sampled_from([0, 0, 7, 64]), min_size=1, max_size=3)),
-                "rng_seed": draw(st.integers(0, 2 ** 31))}
+                "rng_seed": draw(st.integers(0, 2 ** 31)),
+                "drain": draw(st.sampled_from(["getmany", "getmany", "getone"]))}
     return cases()
 
 
 def campaigns(tier):
     th = tier == "thorough"
     return [Campaign("isolation_sim", "hyp", execute=execute, strategy=strategy,
-                     examples=30000 if th else 1500, setup=CS.setup, max_wall=900 if th else 100, shrink_wall=40)]
+                     examples=30000 if th else 6000, setup=CS.setup, max_wall=900 if th else 100, shrink_wall=40)]
